@@ -238,7 +238,10 @@ impl PerVisibleAlphabetConstraints {
 }
 
 fn find_string_index(value: &str, char_set: &BTreeMap<usize, char>) -> Result<usize, GrammarError> {
-    let as_char = value.chars().next().unwrap();
+    let as_char = value.chars().next().ok_or(GrammarError::new(
+        "An end point of a character range must be a string of one character, found an empty string.",
+        GrammarErrorType::UnpackingError,
+    ))?;
     find_char_index(char_set, as_char)
 }
 
